@@ -17,6 +17,8 @@ Parameters / hypotheses (all explicit):
 import LinVerif.Lemmas.C15Table
 import LinVerif.Lemmas.C15Merge
 import LinVerif.Lemmas.C15Version
+import LinVerif.Lemmas.C15Open
+import LinVerif.Lemmas.C15Cache
 import LinVerif.Generated.C15
 
 namespace LinVerif.Props.C15
@@ -144,6 +146,65 @@ theorem tie_flusher_commit_order :
     Generated.C15.storeFlusherCommitCalls.take 11 =
       ["defer:?", "builder.Size", "builder.Close", "fmt.Errorf", "builder.FileNumber", "builder.MinKey",
        "builder.MaxKey", "builder.Size", "version.NewFileMeta", "version.CreateNewFile", "editLog.Add"] := rfl
+
+/-- the checks of `newMMapStoreReader` and `initialize`, in source order — the first two are the
+open / mmap errors (`fs` / `failing` in the model), the rest are the six branches of `Reader.openE`
+(`tooShort`, [initialize:] `badMagic`, `badFooter`, `badOffsets`, `badKeys`, `countMismatch`) — and
+every slice expression of `initialize` (`footerPos`, the three sections) -/
+theorem tie_reader_open_checks :
+    Generated.C15.readerOpenChecks =
+      ["err != nil", "err != nil", "len(data) < sstFileFooterSize", "err := reader.initialize(); err != nil",
+       "uint64Func(r.fullBlock[footerStart+magicNumberAtFooter:]) != magicNumberOffsetFile",
+       "!intsAreSortedFunc([]int{ 0, posOfOffset, posOfKeys, footerStart, })",
+       "err := unmarshalFixedOffsetFunc(r.offsets, offsetsBlock); err != nil",
+       "_, err := encoding.BitmapUnmarshal(r.keys, r.fullBlock[posOfKeys:]); err != nil",
+       "r.offsets.Size() != int(r.keys.GetCardinality())"] ∧
+    Generated.C15.readerInitSlices =
+      ["r.fullBlock[footerStart+magicNumberAtFooter:]", "r.fullBlock[footerStart : footerStart+4]",
+       "r.fullBlock[footerStart+4 : footerStart+8]", "r.fullBlock[posOfOffset:posOfKeys]",
+       "r.fullBlock[posOfKeys:]", "r.fullBlock[:posOfOffset]"] :=
+  ⟨rfl, rfl⟩
+
+/-- kv/table/cache.go statement for statement (counters left out): what `Model/TableLRU.lean`
+mirrors — a hit retains and returns the cached reader without looking at the family; a miss opens,
+retains, adds at the front, registers the family; `ReleaseReaders` / `Evict` find the entry by
+file name through `LRUCache.Get` (which moves it to the front); `Cleanup` evicts from the back
+while `ref == 0` and expired, and stops at the first entry it keeps -/
+theorem tie_reader_cache :
+    Generated.C15.cacheGetReaderStmts =
+      ["c.mutex.Lock()", "defer c.mutex.Unlock()",
+       "if entry, ok := c.cache.Get(fileName); ok { entry.retain() metrics.TableCacheStatistics.Hit.Incr() return entry.reader, nil }",
+       "path := filepath.Join(c.storePath, family, fileName)", "newReader, err := newMMapStoreReaderFunc(path, fileName)",
+       "if err != nil { return nil, err }",
+       "entry := &cacheEntry{ key: fileName, reader: newReader, family: family, fileName: fileName, }",
+       "entry.retain()", "c.cache.Add(fileName, entry)",
+       "if files, ok := c.families[family]; ok { files[fileName] = struct{}{} } else { c.families[family] = map[string]struct{}{fileName: {}} }",
+       "return newReader, nil"] ∧
+    Generated.C15.cacheReleaseStmts =
+      ["c.mutex.Lock()", "defer c.mutex.Unlock()",
+       "for _, r := range readers { if entry, ok := c.cache.Get(r.FileName()); ok { entry.release() } }"] ∧
+    Generated.C15.cacheEvictStmts =
+      ["c.mutex.Lock()", "defer c.mutex.Unlock()",
+       "if entry, ok := c.cache.Get(fileName); ok { c.evict(entry) c.cache.Remove(fileName) }"] ∧
+    Generated.C15.cacheCleanupStmts =
+      ["c.mutex.Lock()", "defer c.mutex.Unlock()", "ttl := c.ttl.Milliseconds()",
+       "c.cache.Walk(func(entry *cacheEntry) bool { if entry.ref.Load() == 0 && timeutil.Now()-entry.last > ttl { c.evict(entry) metrics.TableCacheStatistics.Evict.Incr() return true } return false })"] ∧
+    Generated.C15.cacheEvictEntryStmts =
+      ["c.closeReader(entry)", "files := c.families[entry.family]", "delete(files, entry.fileName)",
+       "if len(files) == 0 { delete(c.families, entry.family) }"] ∧
+    Generated.C15.cacheRetainStmts = ["e.ref.Inc()", "e.last = timeutil.Now()"] ∧
+    Generated.C15.cacheReleaseEntryStmts = ["e.ref.Dec()"] ∧
+    Generated.C15.lruAddStmts = ["entry := c.evictList.PushFront(value)", "c.items[key] = entry"] ∧
+    Generated.C15.lruGetStmts =
+      ["if ent, ok := c.items[key]; ok { c.evictList.MoveToFront(ent) value := ent.Value.(*cacheEntry) return value, true }",
+       "return"] ∧
+    Generated.C15.lruRemoveStmts = ["if ent, ok := c.items[key]; ok { c.removeElement(ent) }"] ∧
+    Generated.C15.lruWalkStmts =
+      ["size := len(c.items)",
+       "for i := 0; i < size; i++ { ent := c.evictList.Back() if ent != nil { entry := ent.Value.(*cacheEntry) if fn(entry) { c.removeElement(ent) } else { break } } }"] ∧
+    Generated.C15.lruRemoveElementStmts =
+      ["c.evictList.Remove(e)", "kv := e.Value.(*cacheEntry)", "delete(c.items, kv.key)"] :=
+  ⟨rfl, rfl, rfl, rfl, rfl, rfl, rfl, rfl, rfl, rfl, rfl, rfl⟩
 
 /-! ## table files -/
 
@@ -583,7 +644,135 @@ theorem iterators_independent (K : KeySetOps B) (r : Reader B) (s : List Bool) (
   rw [stepOne_all]
   simp
 
+/-! ## opening arbitrary bytes: what `initialize` validates -/
+
+/-- **open_validates_or_refuses.** For ANY byte string (a table cut short, with flipped bytes, or no
+table at all) `newMMapStoreReader` either refuses it — exactly when one of the six named checks
+fails (`Reader.openE`) — or hands out a reader for which every slice expression of `initialize` was
+in bounds (`posOfOffset ≤ posOfKeys ≤ footerStart`), the key section unmarshalled, the offsets
+section holds as many offsets as there are keys, and every value a lookup (`Get`) or the iterator
+(`Value()`) delivers is a contiguous piece of the entries region `file[:posOfOffset]` — never bytes
+of the offsets / key sections or of the footer, never out of range. (There is no checksum over the
+values: a flipped value byte is delivered as it is; that is outside what the format can detect.) -/
+theorem open_validates_or_refuses (K : KeySetOps B) (full : Bytes) :
+    (Reader.open K full = none ↔ ∃ e, Reader.openE K full = .error e) ∧
+    (∀ r, Reader.open K full = some r →
+      sstFileFooterSize ≤ full.length ∧
+      (footerPos full).1 ≤ (footerPos full).2 ∧ (footerPos full).2 ≤ full.length - sstFileFooterSize ∧
+      r.entries = full.take (footerPos full).1 ∧
+      K.unmarshal (full.drop (footerPos full).2) = some r.keys ∧
+      r.offsets.sizeOf = (K.card r.keys : Int) ∧
+      (∀ key v, r.get K key = .ok v → v <:+: full.take (footerPos full).1) ∧
+      (∀ i, r.valueAt i <:+: full.take (footerPos full).1)) := by
+  constructor
+  · rw [open_eq_openE]
+    cases h : Reader.openE K full with
+    | ok r => simp [okOf]
+    | error e => simp [okOf]
+  · intro r h
+    obtain ⟨h1, _, h3, h4, h5, _, h7, h8⟩ := open_sound K full r h
+    refine ⟨h1, h3, h4, h5, h7, h8, ?_, ?_⟩
+    · intro key v hv
+      rw [← h5]
+      exact get_infix K r key v hv
+    · intro i
+      rw [← h5]
+      exact valueAt_infix r i
+
+/-- **truncated_tail_refused.** A table written by the builder and then cut short by 1 to 8 bytes
+(a torn last write) is never opened, whatever its content: the file is too short, or the version
+byte 0 sits where the magic number has a non-zero byte. (Longer truncations cannot be excluded by
+the format: a value may itself be a table image — `Neg.abandoned_bytes_may_parse_as_a_table`.) -/
+theorem truncated_tail_refused (K : KeySetOps B) (hK : K.Lawful) (items : List Put) (hne : items ≠ [])
+    (n : Nat) (h1 : 1 ≤ n) (h8 : n ≤ 8) :
+    ∃ b file, Builder.run K (Builder.init K) (items.flatMap Put.ops) = some b ∧ b.close K = some file ∧
+      Reader.open K (file.take (file.length - n)) = none := by
+  obtain ⟨b, hrun, hclose⟩ := table_file_layout K hK items hne
+  exact ⟨b, _, hrun, hclose, open_truncated_tail K _ _ _ n h1 h8⟩
+
+/-- the same for any bytes that end in a footer — nothing about the body is used -/
+theorem truncated_tail_refused_any (K : KeySetOps B) (body : Bytes) (p1 p2 n : Nat) (h1 : 1 ≤ n) (h8 : n ≤ 8) :
+    Reader.open K ((body ++ footer p1 p2).take ((body ++ footer p1 p2).length - n)) = none :=
+  open_truncated_tail K body p1 p2 n h1 h8
+
+/-! ## the reader cache: which reader a lookup gets -/
+
+/-- **cache_serves_the_named_table.** After ANY sequence of `GetReader` (hits, misses, failing
+opens) / `ReleaseReaders` / `Evict` / `Cleanup` calls on a fresh cache, the cache holds at most one
+entry per file and per reader object, every cached reader is open and is the reader of the file it
+is filed under, and the next `GetReader(family, file)` either fails (the file is not cached and
+cannot be opened: nothing changes) or hands out an open reader **of that file** which is now
+cached under that name. Together with `table_get` (the file's bytes never change once written):
+a lookup through the cache reads the table it asked for, whatever the cache went through before. -/
+theorem cache_serves_the_named_table (ops : List TableLRU.Op) (family file : Nat) (canOpen : Bool) :
+    TableLRU.Inv ((TableLRU.Cache.run {} ops)) ∧
+    (match ((TableLRU.Cache.run {} ops).getReader family file canOpen).2 with
+     | some rid =>
+       ((TableLRU.Cache.run {} ops).getReader family file canOpen).1.opened[rid]? = some file ∧
+       rid ∉ ((TableLRU.Cache.run {} ops).getReader family file canOpen).1.closed ∧
+       ∃ e ∈ ((TableLRU.Cache.run {} ops).getReader family file canOpen).1.lru, e.rid = rid ∧ e.file = file
+     | none =>
+       TableLRU.find (TableLRU.Cache.run {} ops).lru file = none ∧ canOpen = false ∧
+       ((TableLRU.Cache.run {} ops).getReader family file canOpen).1 = TableLRU.Cache.run {} ops) :=
+  ⟨TableLRU.inv_run ops TableLRU.inv_empty,
+   TableLRU.getReader_spec (TableLRU.inv_run ops TableLRU.inv_empty) family file canOpen⟩
+
+/-- **cleanup_spares_referenced.** In any reachable cache state `Cleanup()` closes only readers whose
+ref count is exactly 0, every entry with a non-zero count is still cached afterwards, and when no
+entry has expired nothing changes at all. (It may close fewer than it could — the walk starts at
+the least recently used entry and stops at the first one it must keep:
+`Neg.cleanup_stops_at_the_first_kept_entry`.) -/
+theorem cleanup_spares_referenced (ops : List TableLRU.Op) (expired : Bool) :
+    (∀ r ∈ ((TableLRU.Cache.run {} ops).cleanup expired).closed,
+      r ∈ (TableLRU.Cache.run {} ops).closed ∨
+      ∃ e ∈ (TableLRU.Cache.run {} ops).lru, e.rid = r ∧ e.ref = 0) ∧
+    (∀ e ∈ (TableLRU.Cache.run {} ops).lru, e.ref ≠ 0 →
+      e ∈ ((TableLRU.Cache.run {} ops).cleanup expired).lru) ∧
+    (expired = false → (TableLRU.Cache.run {} ops).cleanup expired = TableLRU.Cache.run {} ops) :=
+  TableLRU.walk_spec expired _ (TableLRU.inv_run ops TableLRU.inv_empty)
+
+/-! ## tables and merge together -/
+
+/-- **merge_tables_all_entries.** Any number of tables, each written by the builder from its own
+well-formed items (overlapping key ranges, the same key in several tables): merging the iterators
+of their readers — what compaction and `NewMergedIterator` over a snapshot's readers do — delivers
+every kept entry of every table exactly once, in non-decreasing key order. (`table_iter_sorted`
+composed with `merge_sorted_perm`: a table iterator is strictly ascending, hence a legal input.) -/
+theorem merge_tables_all_entries (K : KeySetOps B) (hK : K.Lawful) (tables : List (List Put))
+    (readers : List (Reader B)) (hok : ∀ items ∈ tables, ItemsOK items)
+    (hb : AllBuiltAs K tables readers) :
+    (mergeAll (readers.map (fun r => r.iterate K))).Perm
+      (tables.map (fun items => accepted (items.map Put.entry))).flatten ∧
+    (mergeAll (readers.map (fun r => r.iterate K))).Pairwise (fun a b => a.1 ≤ b.1) := by
+  rw [iterate_map_of_built hK tables readers hok hb]
+  apply merge_sorted_perm
+  intro it hit
+  obtain ⟨items, hmem, rfl⟩ := List.mem_map.mp hit
+  obtain ⟨b, hrun, _, hrest⟩ := build_ok hK items
+  obtain ⟨_, _, _, _, hrepr⟩ := hrest (hok items hmem).1 (hok items hmem).2.1 (hok items hmem).2.2
+  exact (List.pairwise_map.mp hrepr.asc).imp (fun h => Nat.le_of_lt h)
+
 /-! ## the hypotheses are satisfiable (non-vacuity) -/
+
+/-- two overlapping tables exist, open, and merge to all five entries -/
+example :
+    let t1 := [Put.add 1 [1], Put.stream 5 [[5], [5]], Put.add 70000 []]
+    let t2 := [Put.add 5 [9], Put.add 6 []]
+    let rd := fun (t : List Put) =>
+      ((Builder.run listKeySet (Builder.init listKeySet) (t.flatMap Put.ops)).bind
+        (fun b => b.close listKeySet)).bind (Reader.open listKeySet)
+    ((rd t1).bind (fun r1 => (rd t2).map (fun r2 =>
+      (mergeAll [r1.iterate listKeySet, r2.iterate listKeySet]).map (·.1)))) = some [1, 5, 5, 6, 70000] := by
+  decide
+
+/-- a finished table minus its last byte is refused at the magic check; the whole file opens -/
+example :
+    ((Builder.run listKeySet (Builder.init listKeySet) [Op.add 3 [7, 7]]).bind (fun b => b.close listKeySet)).map
+      (fun f => ((Reader.openE listKeySet (f.take (f.length - 1))).toOption.isSome,
+                 (Reader.openE listKeySet f).toOption.isSome,
+                 match Reader.openE listKeySet (f.take (f.length - 1)) with
+                 | .error e => some e | .ok _ => none)) = some (false, true, some OpenErr.badMagic) := by
+  decide
 
 /-- the bitmap contract has a model: the sorted-list stand-in the driver runs -/
 example : listKeySet.Lawful := listKeySet_lawful
@@ -648,6 +837,32 @@ theorem shared_level_maps_lose_files :
     (findFiles (deref (applyLogsH (cloneShared heap v).1 (cloneShared heap v).2 logs) v) 7).map (·.fileNumber) = [3] ∧
     (findFiles (deref (applyLogsH (cloneDeep heap v).1 (cloneDeep heap v).2 logs) v) 7).map (·.fileNumber) = [1, 2] := by
   decide
+
+/-- `Cleanup` walks from the least recently used end and stops at the first entry it has to keep:
+table 1 (oldest, still referenced) shields table 2 (expired, unreferenced) from being closed; once
+table 1 is released too both go (releasing is itself a "use": it moves the entry to the front);
+an entry released once too often (ref −1) is never cleaned up and shields what lies before it -/
+theorem cleanup_stops_at_the_first_kept_entry :
+    let c := TableLRU.Cache.run {} [.get 0 1 true, .get 0 2 true, .release [2]]
+    c.lru.map (fun e => (e.file, e.ref)) = [(2, 0), (1, 1)] ∧
+    (c.cleanup true).closed = [] ∧
+    ((c.release [1]).cleanup true).closed = [0, 1] ∧
+    (((c.release [1]).release [2]).cleanup true).closed = [0] ∧
+    ((((c.release [1]).release [2]).cleanup true).lru.map (fun e => (e.file, e.ref))) = [(2, -1)] := by decide
+
+/-- the cache is keyed by the file name alone: a hit ignores the family argument and hands out the
+reader of the family that opened the name first (harmless only because table numbers are unique
+in a store — `StoreVersionSet.NextFileNumber`) -/
+theorem cache_hit_ignores_the_family :
+    let c1 := (({} : TableLRU.Cache).getReader 0 7 true)
+    (c1.1.getReader 1 7 true).2 = c1.2 ∧ ((c1.1.getReader 1 7 true).1.lru.map (·.family)) = [0] := by decide
+
+/-- `ReleaseReaders` finds the entry by file name, not by reader: releasing a reader that was
+evicted meanwhile decrements the count of the file's NEW reader, which `Cleanup` then closes
+although it is in use (C02's `Neg.double_release_unmaps_held_reader` is the same shape) -/
+theorem stale_release_hits_the_new_reader :
+    let c := TableLRU.Cache.run {} [.get 0 3 true, .evict 3, .get 0 3 true, .release [3]]
+    c.lru.map (fun e => (e.file, e.ref, e.rid)) = [(3, 0, 1)] ∧ (c.cleanup true).closed = [1, 0] := by decide
 
 /-- bytes left behind by an aborted build are not guaranteed to be unreadable: a value that is
 itself a table image, abandoned before the offsets were written, opens as a table -/
